@@ -92,5 +92,6 @@ ChunkLawHolds ==
 Quiet == sp.sub = <<"none">>
 GenPrint == (Mode = "spill" /\ Len(hist) = MaxSteps) =>
                PrintT(<<"SCN", ToJson([steps |-> hist, limit2 |-> sp.limit2])>>)
-StateView == <<sp, rds, chunkIn, Len(hist)>>
+\* everything the next-state relation depends on: hist only through its length and the rejected calls logged
+StateView == <<sp, rds, chunkIn, Len(hist), {hist[i] : i \in {j \in 1..Len(hist) : hist[j][2] = -1}}>>
 =============================================================================
